@@ -4,6 +4,7 @@
 // wait at least the wall distance to that instant, the loop must hold exactly one timer record per enabled alarm (no stale record of an
 // earlier arming left running) and none for a disabled alarm.
 #include "hist/hist.h"
+#include "probe.h"
 #include <tbox/event/loop.h>
 #include <tbox/event/common_loop.h>
 #include <tbox/event/timer_event_impl.h>
@@ -13,11 +14,15 @@
 #include <time.h>
 #include <map>
 using namespace tbox; using namespace tbox::alarm;
+// key-only read of the calendar's subscriber list (order is implementation state); survives a rename of the member (then the key falls back to the history tail)
+template <class C, class A> static auto subs_key(C &c, A *const *al, int n, int) -> decltype(c.watch_alarms_.size(), std::string()) { std::string r; for (auto *a : c.watch_alarms_) for (int i = 0; i < n; i++) if (a == al[i]) r += std::to_string(i); return r; }
+template <class C, class A> static std::string subs_key(C &, A *const *, int, long) { vf_note_missing("watch_alarms_"); return "?"; }
 
 // Monday 2023-10-02 07:00:00 UTC; day index 19632 (1970-01-01 = day 0 = Thursday)
+static const long long kNowUsec = 500700;   // the wall clock is not at a whole millisecond: the armed delay is judged in microseconds
 static const long long kNow = 1696230000LL; static const int kToday = (int)(kNow / 86400);
 static bool g_virt = false;
-extern "C" int gettimeofday(struct timeval *tv, void *) { if (!g_virt) { struct timespec ts; syscall(228 /*SYS_clock_gettime*/, 0, &ts); if (tv) { tv->tv_sec = ts.tv_sec; tv->tv_usec = ts.tv_nsec / 1000; } return 0; } if (tv) { tv->tv_sec = kNow; tv->tv_usec = 0; } return 0; }
+extern "C" int gettimeofday(struct timeval *tv, void *) { if (!g_virt) { struct timespec ts; syscall(228 /*SYS_clock_gettime*/, 0, &ts); if (tv) { tv->tv_sec = ts.tv_sec; tv->tv_usec = ts.tv_nsec / 1000; } return 0; } if (tv) { tv->tv_sec = kNow; tv->tv_usec = kNowUsec; } return 0; }
 
 enum K { EN, DIS, SPECIAL, MASK, REFRESH };
 struct Op { int k, a, b; };
@@ -29,6 +34,7 @@ struct Model { uint8_t mask = 0x3e; std::map<int, bool> special;
   bool next(int i, long long &t) const { for (int k = 0; k < 367; k++) { long long cand = (long long)(kToday + k) * 86400 + SOD[i]; if (cand > kNow && workday(kToday + k) == ONWORK[i]) { t = cand; return true; } } return false; } };
 
 int main(int argc, char **argv) {
+  setenv("TZ", "XXX-5:45YYY,M3.2.0,M11.1.0", 1); tzset();   // process zone = a DST zone far from UTC: the alarms set their zone explicitly, nothing may depend on it
   size_t depth = argc > 1 ? atoi(argv[1]) : 5; hx::install_crash_reporter("C20-calendar-crash");
   hx::Explorer<Op> ex; ex.name = "workday-calendar-3-alarms"; ex.deadline_s = hx::deadline_from_env(300);
   ex.show = [](const Op &o) { char b[64]; switch (o.k) { case EN: snprintf(b, 64, "enable(a%d)", o.a); break; case DIS: snprintf(b, 64, "disable(a%d)", o.a); break; case REFRESH: snprintf(b, 64, "refresh(a%d)", o.a); break;
@@ -51,15 +57,16 @@ int main(int argc, char **argv) {
         if (en[i]) { long long want = 0; M.next(i, want); long long got = al[i]->target_utc_sec_;
           if (got != want) viol = "workday-alarm-not-armed-for-the-earliest-matching-instant-after-calendar-change a" + std::to_string(i) + " armed=" + std::to_string(got) + " expected=" + std::to_string(want);
           else if ((long long)al[i]->remainSeconds() != want - kNow) viol = "workday-alarm-remainSeconds-wrong a" + std::to_string(i);
-          else { auto *tev = static_cast<event::TimerEventImpl *>(al[i]->sp_timer_ev_); long long dist_ms = (want - kNow) * 1000;
+          else { auto *tev = static_cast<event::TimerEventImpl *>(al[i]->sp_timer_ev_); long long dist_ms = (want - kNow) * 1000 - kNowUsec / 1000, dist_us = (want - kNow) * 1000000 - kNowUsec;
             auto *rec = tev->is_enabled_ ? cl->timer_cabinet_.at(tev->token_) : nullptr;
-            if (!tev->is_enabled_ || (long long)tev->interval_.count() < dist_ms) viol = "workday-alarm-armed-delay-shorter-than-distance-after-calendar-change a" + std::to_string(i) + " delay_ms=" + std::to_string((long long)tev->interval_.count()) + " distance_ms=" + std::to_string(dist_ms);
-            else if (!rec || (long long)rec->interval < dist_ms || rec->expired < mono0 + (unsigned long long)dist_ms) viol = "workday-alarm-loop-timer-record-shorter-than-distance-after-calendar-change a" + std::to_string(i); } }
+            if (!tev->is_enabled_ || (long long)tev->interval_.count() * 1000 < dist_us) viol = "workday-alarm-armed-delay-shorter-than-distance-after-calendar-change a" + std::to_string(i) + " delay_ms=" + std::to_string((long long)tev->interval_.count()) + " distance_us=" + std::to_string(dist_us);
+            else if (!rec || (long long)rec->interval * 1000 < dist_us || rec->expired < mono0 + (unsigned long long)dist_ms) viol = "workday-alarm-loop-timer-record-shorter-than-distance-after-calendar-change a" + std::to_string(i); } }
         else if (static_cast<event::TimerEventImpl *>(al[i]->sp_timer_ev_)->is_enabled_) viol = "workday-alarm-disabled-but-timer-still-armed a" + std::to_string(i); }
       if (viol.empty()) { size_t n = 0; for (int i = 0; i < NA; i++) n += en[i]; if (cl->timer_min_heap_.size() != n) viol = "workday-alarm-stale-loop-timer-record: " + std::to_string(cl->timer_min_heap_.size()) + " records for " + std::to_string(n) + " enabled alarms"; }
     }
     std::string c; for (int i = 0; i < NA; i++) c += en[i] ? 'E' : 'd'; c += "|m" + std::to_string(M.mask) + "|"; for (auto &kv : M.special) c += std::to_string(kv.first - kToday) + (kv.second ? "w" : "h");
-    c += "|subs:"; for (auto *a : cal->watch_alarms_) for (int i = 0; i < NA; i++) if (a == al[i]) c += std::to_string(i);        // subscription order is implementation state
+    c += "|subs:" + subs_key(*cal, al, NA, 0);        // subscription order is implementation state
+    if (vf_any_missing()) for (size_t i = h.size() > 3 ? h.size() - 3 : 0; i < h.size(); i++) c += "," + ex.show(h[i]);
     for (int i = 0; i < NA; i++) delete al[i]; delete cal; loop->runNext([] {}); loop->runLoop(event::Loop::Mode::kOnce); delete loop; g_virt = false;
     return c; };
   ex.explore(depth);
